@@ -115,3 +115,149 @@ Theorem C10_concat_logical_blank : forall b,
   = Ok (VStr (if b then [84; 82; 85; 69] else [70; 65; 76; 83; 69])).
 Proof. exact concat_bool_blank. Qed.
 Print Assumptions C10_concat_logical_blank.
+
+(* ===================================================================== *)
+(* Deepening: totality / type closure, text in arithmetic, the order,    *)
+(* the renderings of "&".  Definitions used below (Proofs/C10Total.v,    *)
+(* Proofs/C10Order.v):                                                   *)
+(*   op_modelled o v  decidable: v is inside the model of operator o     *)
+(*       comparisons: text whose case mapping is modelled (cmp_modelled) *)
+(*       &:           integral float, or float_repr defined              *)
+(*       arithmetic:  text is ASCII and a TRUE/FALSE/#EMPTY! spelling or *)
+(*                    float() of it is not Unmodelled (inf/nan, |exp|>300)*)
+(*   result_ok o v    comparisons: a logical; &: text; + - * / unary     *)
+(*                    minus: VInt, VFloat, #VALUE! or #DIV/0!            *)
+(*   arith_result v   VInt, VFloat, #VALUE!, #DIV/0! or #NUM! (for ^)    *)
+(*   text_num s       coerce_to_number(s, True) written out: TRUE/FALSE, *)
+(*                    int(), float() (py_int_base / parse_float)         *)
+(*   plain v          scalar, not an error value, not blank              *)
+(*   res_eqv          equal results up to the kind of number (4 ~ 4.0)   *)
+(* ===================================================================== *)
+From PV Require Import Proofs.NumLemmas Proofs.C10Order Proofs.C10Total.
+
+(* (a) TOTALITY: every operator except ^ returns a value of the right kind on
+   all modelled non-error scalars, never raises ... *)
+Theorem C10_total : forall l o r, scalar l -> scalar r ->
+  in_error_codes l = Ok false -> in_error_codes r = Ok false -> o <> Pow ->
+  op_modelled o l = true -> op_modelled o r = true ->
+  exists v, fixup l o r = Ok v /\ result_ok o v.
+Proof. exact total. Qed.
+Print Assumptions C10_total.
+
+(* ... with error operands included: a number, text, logical or error value *)
+Theorem C10_closed : forall l o r, scalar l -> scalar r -> o <> Pow ->
+  op_modelled o l = true -> op_modelled o r = true ->
+  exists v, fixup l o r = Ok v /\ xl_value v.
+Proof. exact closed. Qed.
+Print Assumptions C10_closed.
+
+(* the hypothesis is exact, for all 13 operators: outside it the model answers
+   Unmodelled and nothing else (for ^ see the further restriction below) *)
+Theorem C10_unmodelled_exact : forall l o r, scalar l -> scalar r ->
+  in_error_codes l = Ok false -> in_error_codes r = Ok false ->
+  op_modelled o l = false \/ op_modelled o r = false ->
+  fixup l o r = Raise Unmodelled.
+Proof. exact unmodelled_exact. Qed.
+Print Assumptions C10_unmodelled_exact.
+
+(* ^ : total exactly on pow_modelled operands (l1, r1 = the coerced operands);
+   PARTIAL with respect to the property: a non-integral exponent with a
+   non-negative base is outside the exact-arithmetic model (irrational result),
+   there only the oracle judges the implementation *)
+Theorem C10_total_pow_partial : forall l r, scalar l -> scalar r ->
+  in_error_codes l = Ok false -> in_error_codes r = Ok false ->
+  arith_modelled l = true -> arith_modelled r = true ->
+  exists l1 r1,
+    excelutil.f_coerce_to_number py_fuel l (VBool true) = Ok l1 /\ coerced l1
+    /\ excelutil.f_coerce_to_number py_fuel r (VBool true) = Ok r1 /\ coerced r1
+    /\ (pow_modelled l1 r1 = true -> exists v, fixup l Pow r = Ok v /\ arith_result v)
+    /\ (pow_modelled l1 r1 = false -> fixup l Pow r = Raise Unmodelled).
+Proof. exact pow_total. Qed.
+Print Assumptions C10_total_pow_partial.
+
+(* pow_modelled in plain terms: the float exponent is integral or the base negative *)
+Theorem C10_pow_domain : forall l1 q, number l1 ->
+  pow_modelled l1 (VFloat q) = integral q || q_ltb (qv l1) 0.
+Proof. exact pow_domain. Qed.
+Print Assumptions C10_pow_domain.
+
+(* (b) TEXT IN ARITHMETIC.  What the generated coerce_to_number does with text *)
+Theorem C10_text_coercion : forall s, non_ascii s = false ->
+  excelutil.f_coerce_to_number py_fuel (VStr s) (VBool true) = text_num s.
+Proof. exact coerce_text. Qed.
+Print Assumptions C10_text_coercion.
+
+(* numeric text behaves as the number it spells, on either side *)
+Theorem C10_text_as_number : forall s n o r, arith o -> non_ascii s = false ->
+  in_error_codes (VStr s) = Ok false -> text_num s = Ok n -> number n ->
+  scalar r -> arith_modelled r = true ->
+  res_eqv (fixup (VStr s) o r) (fixup n o r) /\ res_eqv (fixup r o (VStr s)) (fixup r o n).
+Proof. exact text_as_number. Qed.
+Print Assumptions C10_text_as_number.
+
+(* other text gives #VALUE! (+ - * / ^), on either side *)
+Theorem C10_text_not_number : forall s o r, binary_arith o -> non_ascii s = false ->
+  in_error_codes (VStr s) = Ok false -> text_num s = Ok (VStr s) ->
+  scalar r -> in_error_codes r = Ok false -> arith_modelled r = true ->
+  fixup (VStr s) o r = Ok excelutil.c_VALUE_ERROR /\ fixup r o (VStr s) = Ok excelutil.c_VALUE_ERROR.
+Proof. exact text_not_number. Qed.
+Print Assumptions C10_text_not_number.
+
+(* the result of + - * / depends only on the exact values the operands stand for *)
+Theorem C10_arith_value : forall o a b, number a -> number b -> arith o ->
+  match q_op o (qv a) (qv b) with
+  | Some q => exists v, num_apply o a b = Ok v /\ number v /\ (qv v == q)%Q
+  | None => num_apply o a b = Raise ZeroDivisionError
+  end.
+Proof. exact num_apply_value. Qed.
+Print Assumptions C10_arith_value.
+
+(* (c) ONE ORDER on the non-blank, non-error scalars (Refuted/C10_trans_blank.v:
+   through blank neither <= nor = is transitive, by the property's own rule) *)
+Theorem C10_le_transitive : forall a b c, plain a -> plain b -> plain c ->
+  fixup a LtE b = Ok (VBool true) -> fixup b LtE c = Ok (VBool true) ->
+  fixup a LtE c = Ok (VBool true).
+Proof. exact le_trans. Qed.
+Print Assumptions C10_le_transitive.
+
+Theorem C10_lt_transitive : forall a b c, plain a -> plain b -> plain c ->
+  fixup a Lt b = Ok (VBool true) -> fixup b Lt c = Ok (VBool true) ->
+  fixup a Lt c = Ok (VBool true).
+Proof. exact lt_trans. Qed.
+Print Assumptions C10_lt_transitive.
+
+Theorem C10_le_antisymmetric : forall a b, plain a -> plain b ->
+  fixup a LtE b = Ok (VBool true) -> fixup b LtE a = Ok (VBool true) ->
+  fixup a Eq b = Ok (VBool true).
+Proof. exact le_antisym. Qed.
+Print Assumptions C10_le_antisymmetric.
+
+Theorem C10_le_total : forall a b, plain a -> plain b ->
+  cmp_modelled a = true -> cmp_modelled b = true ->
+  fixup a LtE b = Ok (VBool true) \/ fixup b LtE a = Ok (VBool true).
+Proof. exact le_total_modelled. Qed.
+Print Assumptions C10_le_total.
+
+Theorem C10_eq_equivalence :
+  (forall a, plain a -> cmp_modelled a = true -> fixup a Eq a = Ok (VBool true))
+  /\ (forall a b, plain a -> plain b -> fixup b Eq a = fixup a Eq b)
+  /\ (forall a b c, plain a -> plain b -> plain c ->
+        fixup a Eq b = Ok (VBool true) -> fixup b Eq c = Ok (VBool true) ->
+        fixup a Eq c = Ok (VBool true)).
+Proof. exact (conj eq_refl_modelled (conj eq_sym_plain eq_trans_plain)). Qed.
+Print Assumptions C10_eq_equivalence.
+
+(* (d) & concatenates the Excel renderings, for every pair of non-error scalars *)
+Theorem C10_concat_renderings : forall l r, scalar l -> scalar r ->
+  in_error_codes l = Ok false -> in_error_codes r = Ok false ->
+  fixup l BitAnd r = (a <- xl_render l ;; b <- xl_render r ;; Ok (VStr (a ++ b))).
+Proof. exact concat_spec. Qed.
+Print Assumptions C10_concat_renderings.
+
+(* integral floats render without ".0" — every integral float, any magnitude *)
+Theorem C10_concat_integral_float : forall q z r b, (q == inject_Z z)%Q -> scalar r ->
+  in_error_codes r = Ok false -> xl_render r = Ok b ->
+  fixup (VFloat q) BitAnd r = Ok (VStr (str_of_Z z ++ b))
+  /\ fixup r BitAnd (VFloat q) = Ok (VStr (b ++ str_of_Z z)).
+Proof. exact concat_integral_float. Qed.
+Print Assumptions C10_concat_integral_float.
